@@ -45,6 +45,20 @@ func VH_C17_shutdown() {
 	if stopped {
 		zz.Yield()
 		zz.Assert(handled == after, "no_task_starts_after_shutdown_returned")
+		// a queue created after the shutdown request (the operator still starting its hook
+		// queues when the signal arrives) is born stopped: it never runs a task either
+		if zz.Bool("queue_created_after_shutdown") {
+			op.TaskQueues.NewNamedQueue("late", func(t task.Task) queue.TaskResult {
+				handled++
+				return queue.TaskResult{Status: queue.Success}
+			})
+			late := op.TaskQueues.GetByName("late")
+			late.AddLast(&task.BaseTask{Id: "t-late"})
+			late.Start()
+			zz.WaitUntil(func() bool { return late.Status == "stop" || handled > after })
+			zz.Assert(handled == after, "queue_created_after_shutdown_runs_nothing")
+			zz.Assert(late.Length() == 1, "queue_created_after_shutdown_keeps_its_task")
+		}
 	}
 	zz.Reach("end")
 }
